@@ -99,8 +99,18 @@ class Run:
         self._vio_keys = set()
 
     # -- sizes --------------------------------------------------------------------------
+    # the thorough tier runs this many times the quick tier's workload (where the quick tier has one): the sizes written in the checks
+    # (20-40 x) were never affordable — a full thorough sweep took far more than a day of 16 cores — so they act as upper bounds;
+    # VERIF_THOROUGH_FACTOR raises the factor for anyone with the time
+    THOROUGH_FACTOR = float(os.environ.get("VERIF_THOROUGH_FACTOR", "4"))
+
     def n(self, quick, thorough):
-        v = quick if self.tier == "quick" else thorough
+        if self.tier == "quick":
+            v = quick
+        elif quick > 0 and thorough > 0 and self.prop not in ("C06", "C18"):  # those two are cheap: full sizes
+            v = min(thorough, quick * self.THOROUGH_FACTOR)
+        else:
+            v = thorough
         return max(1, int(v * self.scale))
 
     def thorough(self):
